@@ -54,6 +54,8 @@ def ctx_variants(params: List[Dict[str, Any]], flavour_async: bool) -> Iterator[
     fn = 'coro' if flavour_async else 'func'
     vw = 'aview' if flavour_async else 'view'
     yield {'params': params, 'flavour': fn, 'ctx': 'none'}
+    yield {'params': params, 'flavour': fn, 'ctx': 'none', 'positional_flag': True}
+    yield {'params': params, 'flavour': fn, 'ctx': 'none', 'positional_flag': True, 'via': 'dispatcher.add'}
     ctxp = {'name': 'ctx', 'kind': 'PK', 'ctx': True}
     # by name, at every python-valid position among the positional-or-keyword parameters, and as keyword-only
     n_po = len([p for p in params if p['kind'] == 'PO'])
